@@ -177,3 +177,19 @@ M("c14-exponent-off", "C14", "head in_channels exponent off by one for bottom-up
 M("c14-forward-index", "C14", "forward picks the last decoder output for every head", MDL, "            idx = backbone_outputs[\"strides\"].index(head.output_stride)\n", "            idx = len(backbone_outputs[\"strides\"]) - 1\n")
 M("c14-shape-cache", "C14", "Model.forward memoises backbone outputs by input shape in eval mode", MDL, "        backbone_outputs = self.backbone(x)\n", "        key = tuple(x.shape)\n        if not self.training and getattr(self, \"_vf_cache\", (None, None))[0] == key:\n            backbone_outputs = self._vf_cache[1]\n        else:\n            backbone_outputs = self.backbone(x)\n            self._vf_cache = (key, backbone_outputs)\n")
 M("c14-dropout-eval", "C14", "head adds noise depending on batch statistics (batch-dependent normalisation)", MDL, "            outputs[head.name] = head_layer(backbone_outputs[\"outputs\"][idx])\n", "            feat = backbone_outputs[\"outputs\"][idx]\n            if feat.shape[0] > 1 and feat.shape[1] > 8:\n                feat = feat - feat.mean(dim=0, keepdim=True) * 1e-2\n            outputs[head.name] = head_layer(feat)\n")
+
+RS = "sleap_nn/data/resizing.py"
+CDS = "sleap_nn/data/custom_datasets.py"
+IC = "sleap_nn/data/instance_cropping.py"
+ICN = "sleap_nn/data/instance_centroids.py"
+M("c04-effscale-dropped-centered", "C04", "CenteredInstanceDataset: instances not scaled by eff_scale", CDS, "            instances = instances * eff_scale\n\n            # resize image\n            image, instances = apply_resizer(", "            instances = instances * 1.0\n\n            # resize image\n            image, instances = apply_resizer(")
+M("c04-scale-twice", "C04", "apply_resizer scales keypoints twice when scale<1", RS, "        instances = instances * scale\n    return image, instances", "        instances = instances * scale * (scale if scale < 0.4 else 1.0)\n    return image, instances")
+M("c04-pad-top-left", "C04", "sizematcher pads top/left", RS, "        image = F.pad(\n            image,\n            (0, pad_width, 0, pad_height),\n            mode=\"constant\",\n        ).to(torch.float32)\n\n        return image, eff_scale_ratio", "        image = F.pad(\n            image,\n            (pad_width, 0, pad_height, 0),\n            mode=\"constant\",\n        ).to(torch.float32)\n\n        return image, eff_scale_ratio")
+M("c04-ratio-swapped", "C04", "sizematcher picks the larger ratio", RS, "        if hratio > wratio:\n            eff_scale_ratio = wratio", "        if hratio < wratio:\n            eff_scale_ratio = wratio")
+M("c04-bbox-not-subtracted", "C04", "generate_crops subtracts bbox centre-ish point", IC, "    point = instance_bbox[0][0]\n    center_instance = (instance - point).unsqueeze(0)", "    point = instance_bbox[0][0] + 0.5\n    point = point.floor() + 2\n    center_instance = (instance - point).unsqueeze(0)")
+M("c04-recrop-centre", "C04", "CenteredInstanceDataset re-crops about the image centre", CDS, "            make_centered_bboxes(\n                sample[\"centroid\"][0], self.crop_hw[0], self.crop_hw[1]\n            ),", "            make_centered_bboxes(\n                torch.tensor(sample[\"instance_image\"].shape[-2:][::-1], dtype=torch.float32) / 2 - 0.5 + 3.0, self.crop_hw[0], self.crop_hw[1]\n            ),")
+M("c04-aug-image-only", "C04", "BottomUpDataset: geometric aug result keypoints discarded", CDS, "                sample[\"image\"], sample[\"instances\"] = apply_geometric_augmentation(\n                    sample[\"image\"],\n                    sample[\"instances\"],\n                    **self.data_config.augmentation_config.geometric,\n                )\n\n        img_hw = sample[\"image\"].shape[-2:]\n\n        # Generate confidence maps\n        confidence_maps = generate_multiconfmaps(\n            sample[\"instances\"],",
+  "                sample[\"image\"], _ = apply_geometric_augmentation(\n                    sample[\"image\"],\n                    sample[\"instances\"],\n                    **self.data_config.augmentation_config.geometric,\n                )\n\n        img_hw = sample[\"image\"].shape[-2:]\n\n        # Generate confidence maps\n        confidence_maps = generate_multiconfmaps(\n            sample[\"instances\"],")
+M("c04-pad-stride-ceil", "C04", "find_padding_for_stride pads a full stride when divisible", RS, "    pad_height = (max_stride - (image_height % max_stride)) % max_stride\n", "    pad_height = (max_stride - (image_height % max_stride)) % (max_stride + (1 if max_stride == 32 else 0))\n")
+M("c11-revert-clone", "C11", "revert generate_centroids clone", ICN, "centroids = points[..., anchor_ind, :].clone()", "centroids = points[..., anchor_ind, :]")
+M("c04-offsets-dropped", "C04", "make_centered_bboxes corner offsets dropped", IC, "    return corners + offset\n", "    return corners\n")
